@@ -3,7 +3,7 @@ TF = "reactivex/operators/_throttlefirst.py"
 SM = "reactivex/operators/_sample.py"
 CASES = [
     dict(expect="fire", desc="debounce timer ignores the id", names="R1-stale-timer", edits=[dict(file=DB,
-         old="                if has_value[0] and _id[0] == current_id:\n                    observer.on_next(value[0])", new="                if has_value[0]:\n                    observer.on_next(value[0])")]),
+         old="                should_emit = has_value[0] and _id[0] == current_id", new="                should_emit = has_value[0]")]),
     dict(expect="fire", desc="debounce completes without flushing", names="debounce_", edits=[dict(file=DB,
          old="            cancelable.dispose()\n            if has_value[0]:\n                observer.on_next(value[0])\n\n            observer.on_completed()", new="            cancelable.dispose()\n            observer.on_completed()")]),
     dict(expect="fire", desc="throttle_first strict comparison", names="R3-throttle-first", edits=[dict(file=TF,
@@ -14,4 +14,19 @@ CASES = [
          old="            observer.on_error(exception)\n            has_value[0] = False\n            _id[0] += 1", new="            observer.on_error(exception)\n            has_value[0] = False")]),
     dict(expect="silent", desc="throttle_first comparison flipped", edits=[dict(file=TF,
          old="now - last_on_next >= duration", new="duration <= now - last_on_next")]),
+    dict(expect="fire", desc="pre-fix 0c202a8: debounce clears the pending flag after emitting", names="G0-state-before-callout", edits=[dict(file="reactivex/operators/_debounce.py",
+         old="                should_emit = has_value[0] and _id[0] == current_id\n                has_value[0] = False\n                if should_emit:\n                    observer.on_next(value[0])",
+         new="                if has_value[0] and _id[0] == current_id:\n                    observer.on_next(value[0])\n                has_value[0] = False")]),
+    dict(expect="fire", desc="seed C16/3: sample clears has_value after the downstream call", names="G0-state-before-callout", edits=[dict(file="reactivex/operators/_sample.py",
+         old="                has_value = False\n                observer.on_next(value)", new="                observer.on_next(value)\n                has_value = False")]),
+    dict(expect="fire", desc="seed C16/2: throttle_first tests the window outside the lock", names="G0-locked-state", edits=[dict(file="reactivex/operators/_throttlefirst.py",
+         old="            with source.lock:\n                if not last_on_next or now - last_on_next >= duration:\n                    last_on_next = now\n                    emit = True",
+         new="            if not last_on_next or now - last_on_next >= duration:\n                with source.lock:\n                    last_on_next = now\n                emit = True")]),
+    dict(expect="fire", desc="seed C16/1: throttle_with_mapper records the element after subscribing the throttle", names="G0-state-before-subscribe", edits=[
+         dict(file="reactivex/operators/_debounce.py", old="            has_value = True\n            value = x\n            _id[0] += 1", new="            _id[0] += 1"),
+         dict(file="reactivex/operators/_debounce.py", old="                on_next, observer.on_error, on_completed, scheduler=scheduler\n            )\n\n        def on_error(e: Exception) -> None:\n            nonlocal has_value",
+              new="                on_next, observer.on_error, on_completed, scheduler=scheduler\n            )\n            has_value = True\n            value = x\n\n        def on_error(e: Exception) -> None:\n            nonlocal has_value")]),
+    dict(expect="silent", desc="debounce: decision local renamed / written as nested ifs", edits=[dict(file="reactivex/operators/_debounce.py",
+         old="                should_emit = has_value[0] and _id[0] == current_id\n                has_value[0] = False\n                if should_emit:\n                    observer.on_next(value[0])",
+         new="                fire = has_value[0] and _id[0] == current_id\n                has_value[0] = False\n                if not fire:\n                    return\n                observer.on_next(value[0])")]),
 ]
